@@ -67,8 +67,9 @@ class Contract(object):
     def __init__(self, target, params=None, cases=None, requires=(), ensures=(), raises=None,
                  raises_ensures=None, returns=None, assigns=(), loops=None, inline=(), specns=None,
                  prop=None, note='', pure=False, may_raise_any=False, trusted=False, exc_ensures=(),
-                 setup=None, model=None, raises_local=None):
+                 setup=None, model=None, raises_local=None, raises_only_if=None):
         self.target = target
+        self.raises_only_if = raises_only_if or {}   # class -> pre-state condition implied by the raise
         self.raises_local = raises_local or {}   # class -> condition over the locals at the raise
         self.model = model              # python summary used at call sites (trusted contracts)
         self.params = params or {}
@@ -187,6 +188,24 @@ class Engine(object):
             k = z3.Const(Z.fresh_name('qk'), kt.zsort)
             body = I.call(ctx, self._specframe_for_lambda(fn), fn, [kt.wrap(k), vt.wrap(z3.Select(arr, k))], {})
             return VBool(z3.ForAll([k], z3.Implies(z3.IsMember(k, dom), I.truth(ctx, body))))
+
+        @self.spec('forall_str')
+        def forall_str(I, ctx, fn):
+            k = z3.Const(Z.fresh_name('qs'), Z.Str)
+            body = I.call(ctx, self._specframe_for_lambda(fn), fn, [VStr(k)], {})
+            return VBool(z3.ForAll([k], I.truth(ctx, body)))
+
+        @self.spec('exists_str')
+        def exists_str(I, ctx, fn):
+            k = z3.Const(Z.fresh_name('qs'), Z.Str)
+            body = I.call(ctx, self._specframe_for_lambda(fn), fn, [VStr(k)], {})
+            return VBool(z3.Exists([k], I.truth(ctx, body)))
+
+        @self.spec('forall_int')
+        def forall_int(I, ctx, lo, hi, fn):
+            k = z3.Int(Z.fresh_name('qi'))
+            body = I.call(ctx, self._specframe_for_lambda(fn), fn, [VInt(k)], {})
+            return VBool(z3.ForAll([k], z3.Implies(z3.And(k >= TInt.to_z(lo), k < TInt.to_z(hi)), I.truth(ctx, body))))
 
         @self.spec('forall_in')
         def forall_in(I, ctx, s, fn):
@@ -573,6 +592,8 @@ class Engine(object):
         for cls, cond in c.raises.items():
             if cond is None:
                 if ctx.nondet(2, 'raises ' + cls) == 1:
+                    if cls in c.raises_only_if:
+                        ctx.assume(self.eval_spec(ctx, sfr, c.raises_only_if[cls]))
                     raise RaiseSig(self.fresh_exception(ctx, cls), node)
             else:
                 cz = self.eval_spec(ctx, sfr, cond)
@@ -612,13 +633,13 @@ class Engine(object):
         e = ctx.new_obj('exc', distinct=False)
         return VObj(e, None)
 
-    def eval_old(self, ctx, fr, node):
+    def eval_old(self, ctx, fr, node, attr='old'):
         f = fr
-        while f is not None and not hasattr(f, 'old'):
+        while f is not None and not hasattr(f, attr):
             f = f.parent
         if f is None:
-            raise ContractError('old() outside a postcondition')
-        old_heap, old_locals, old_attr = f.old
+            raise ContractError('%s() is not available here' % attr)
+        old_heap, old_locals, old_attr = getattr(f, attr)
         cur_heap, cur_attr = ctx.heap, ctx.attr
         ofr = Frame(fr.module, fr.qualname, dict(old_locals), parent=None, cls=fr.cls, spec=True)
         ofr.selfv = fr.selfv
@@ -626,9 +647,28 @@ class Engine(object):
         ctx.heap = dict((rid, h.copy()) for rid, h in old_heap.items())
         ctx.attr = dict(old_attr)
         try:
-            return self.interp.ev(ctx, ofr, node)
+            return self.freeze(ctx, self.interp.ev(ctx, ofr, node))
         finally:
             ctx.heap, ctx.attr = cur_heap, cur_attr
+
+    def freeze(self, ctx, v):
+        """Immutable snapshot of a value in the current heap (old()/at_entry())."""
+        from . import models as M
+        if isinstance(v, VRef):
+            h = ctx.heap.get(v.rid)
+            if isinstance(h, HDict):
+                d = M.dict_sym(self.interp, ctx, v)
+                if d is not None:
+                    return VMap(d[0], d[1], d[2], d[3])
+            if isinstance(h, HSet):
+                return VSet(h.z, h.et)
+            if isinstance(h, HList):
+                if h.items is not None:
+                    return VTuple([self.freeze(ctx, i) for i in h.items])
+                return VSeq(h.z, h.et)
+        if isinstance(v, VTuple):
+            return VTuple([self.freeze(ctx, i) for i in v.items])
+        return v
 
     def instantiate_repo(self, ctx, fr, cv, args, kwargs, node, star):
         I = self.interp
@@ -830,6 +870,13 @@ class Engine(object):
         for j, e in enumerate(c.exc_ensures):
             g = self.eval_spec(ctx, sfr, e)
             ctx.oblige('%s/exc_ensures[%d]' % (fname, j), g, 'K', rs.node, note=str(e))
+        for cls, cond in c.raises_only_if.items():
+            m = Z.simp(I.exc_isinstance(ctx, exc, cls))
+            if Z.is_false(m):
+                continue
+            g = self._eval_in_old(ctx, sfr, cond)
+            ctx.oblige('%s/raises[%s]/only-if' % (fname, cls.rsplit('.', 1)[-1]), z3.Implies(m, g), 'K', rs.node,
+                       note='%s raised at line %s only when %r' % (cls, lineno, cond))
         for cls, cond in c.raises_local.items():
             m = Z.simp(I.exc_isinstance(ctx, exc, cls))
             if Z.is_false(m):
